@@ -1,4 +1,5 @@
 import OrdModel.Proofs.SatBasic
+import OrdModel.Num.SatSpec
 /-! Relating the code model to the specification-level definitions of `SatSpec`. -/
 namespace Ord.SatSpec
 open Ord
